@@ -122,7 +122,7 @@ struct Global {
   std::string cur_desc;   // description of the case in flight (for crash attribution)
   bool thorough() const { return tier == "thorough"; }
 };
-inline Global& G() { static Global g; return g; }
+inline Global& G() { static Global* g = new Global; return *g; }   // never destroyed: the death callback may run after static destructors
 
 inline void raw_write(int fd, const std::string& s) {
   size_t off = 0;
